@@ -420,4 +420,36 @@ PROPS['C07'] = {
     'design_ref': 'DESIGN.md section 5 C07',
 }
 
+PROPS['C08'] = {
+    'modules': ['contracts.fs_format', 'contracts.fs_load', 'contracts.blobmodel', 'contracts.pack_swap'],
+    'lemmas': [],
+    'level': 'other',
+    'explanation': 'proved: sequential contracts, lock ownership, call ordering and crash-Hoare obligations of the swap in '
+                   'FileStorage.pack; bounded (labelled): thread schedules (deterministic windows + a small stress run), '
+                   'crash images and injected failures on the real storage',
+    'bounded': [
+        {'func': 'ZODB.FileStorage.FileStorage:FileStorage.pack<schedules-crashes-failures>',
+         'bound': '12 objects with history; a commit from another thread in each of the three packer phases (GC, copy to '
+                  'pack time, catch-up window with the commit lock released); a reader holding a pooled handle at the '
+                  'swap; a second pack during a pack; directory copied after EVERY rename/remove of the swap and at 2 '
+                  'points of the copy phase, each copy reopened; failures: stale .old that cannot be removed, write error '
+                  'in the copy phase, failing first rename, failing second rename; 4 (thorough: 20) rounds of 1 packer + 2 '
+                  'committers + 1 reader as real threads',
+         'timeout': 1800},
+    ],
+    'text': 'Mixed level. PROVED for FileStorage.pack (all paths, with a fault injected at every directory operation): '
+            'refused when read-only, when a pack is in progress (check-and-set of the flag inside the storage lock) and a '
+            'no-op on an empty storage; the pack-in-progress flag is cleared and the commit lock released on EVERY exit; the '
+            'reader pool is emptied INSIDE the pool writer lock and the storage lock, before the renames; renames and the '
+            'publication of file handle, index and end position happen inside both locks while the commit lock the packer '
+            'returned with is still held; after the swap the handle is open on the packed file, the packer\'s index and end '
+            'position are installed, .old is kept iff asked; crash-Hoare: after every rename/remove the ghost directory must '
+            'name a complete database as Data.fs - this FAILS between the two renames (open finding F6, printed as '
+            'KNOWN-FINDING). BOUNDED only: thread schedules, the packer\'s lock hand-over per copied transaction, crash '
+            'images and failure injection on the real code.',
+    'note': 'NOT covered deductively: the schedule quantifier (T3: code between lock operations is atomic). A-DIRECTORY, '
+            'A-PACKER-RESULT, A-FILEPOOL assumed. F8 (flag stuck) fixed; F6 (non-atomic swap) open.',
+    'design_ref': 'DESIGN.md section 5 C08',
+}
+
 NOT_YET = {}
